@@ -473,7 +473,7 @@ func replayC16(env *mc.Env, raw json.RawMessage) (bool, string) {
 func init() {
 	mc.Register(&mc.Check{
 		ID: "C16",
-		Rule: "direct layer: every numeric entry of interpreter.ConverterDeclarations (27 targets; Address/path entries skipped) x every source numeric type (27) x source values B(source) (complete for 8-bit sources; fixed-point lattice for fixed-point sources) united with the points at and around each target bound (bound + {-1,-1/2,0,+1/2,+1} target units, floored to the source scale, +-1 source unit) and, where the source has more fractional digits than the target, tie-shaped values +-(j*U + {0,1,U/2-1,U/2,U/2+1,U-1}); each without rounding argument and, where the declaration has ConvertWithRounding, with every rule of sema.RoundingRules; " +
+		Rule: "direct layer: every numeric entry of interpreter.ConverterDeclarations (all 24 numeric targets; the Address and path entries are skipped) x every source numeric type (24) x source values B(source) (complete for 8-bit sources; fixed-point lattice for fixed-point sources) united with the points at and around each target bound (bound + {-1,-1/2,0,+1/2,+1} target units, floored to the source scale, +-1 source unit) and, where the source has more fractional digits than the target, tie-shaped values +-(j*U + {0,1,U/2-1,U/2,U/2+1,U-1}); each without rounding argument and, where the declaration has ConvertWithRounding, with every rule of sema.RoundingRules; " +
 			"script layer: the boundary points plus a reduced generic set as `T(x)` / `T(x, rounding: RoundingRule.r)` scripts in interpreter and VM; " +
 			"reference = math/big on raw scaled integers; non-trivial = distinct case that dropped/rounded fractional digits, reduced modulo 2^n, was out of range, or fell in the don't-care cell",
 		Assumptions: []string{
